@@ -53,7 +53,6 @@ Definition pc_ok (s : state) (th : thread) : Prop :=
   match t_pc th with
   | PGetUnlock (Some r) | PGot (Some r) => rec_ok s (t_id th) r
   | PStoreLock r _ | PStoreBody r _ | PStoreUnlock r _ => rec_ok s (t_id th) r
-  | PDelLock | PDelBody | PDelUnlock => exists r, t_mine th = Some r
   | _ => True
   end.
 
@@ -321,7 +320,6 @@ Proof.
       * constructor; simpl; try discriminate; auto.
         -- intros L; apply A in L; destruct L; congruence.
         -- intros r0 Hr0. rewrite Hm in Hr0. apply D in Hr0. exact Hr0.
-        -- unfold pc_ok; simpl. eauto.
       * intros _. split. simpl. eapply gi_lock_a; eauto. apply others_not_cs; auto.
       * intros x _ Hx. simpl. eapply gi_lock_a; eauto.
   - (* EUnlock *)
@@ -370,7 +368,7 @@ Proof.
     destruct (t_kind (thr s t)) eqn:Hk; try discriminate; inversion H; subst; clear H;
       (apply ginv_local_nocs with (s := s); auto using ext_refl;
        [ apply born_live; auto | apply gi_reg; auto | tinv_basic A ]).
-    all: try (intros []; fail).
+    all: intros r [].
   - (* EExit *)
     tinv_tac G t.
     assert (Hb : t_pc (thr s t) <> PExited -> t < nthr s) by (apply born_pc; auto).
@@ -380,3 +378,116 @@ Proof.
     + apply gi_reg; auto.
     + tinv_basic A. intros r [].
 Qed.
+
+Lemma init_ids_inj : forall id0, ids_inj (init id0).
+Proof.
+  intros id0 t1 t2. simpl. unfold upd.
+  destruct (Nat.eqb t1 0) eqn:E1; destruct (Nat.eqb t2 0) eqn:E2; simpl; try discriminate.
+  apply Nat.eqb_eq in E1, E2. congruence.
+Qed.
+
+Lemma reach_ids_inj : forall id0 s, reach id0 s -> ids_inj s.
+Proof. intros id0 s R. destruct R; auto. apply init_ids_inj. Qed.
+
+Lemma reach_ginv : forall id0 s, reach id0 s -> ginv s.
+Proof. induction 1. apply init_ginv. eapply step_ginv; eauto. Qed.
+
+(* ---------- invariants that need the runtime hypothesis ---------- *)
+(* per goroutine: the registry entry of a live goroutine's identity is written only by that goroutine, hence
+   stable between its own registry operations; a go-statement child is registered with a record it created *)
+Definition tj (s : state) (x : nat) : Prop :=
+  let th := thr s x in
+  t_live th = true ->
+  (forall r, t_seen th = Some r ->
+             match t_pc th with PDelUnlock | PDone => True | _ => reg s (t_id th) = Some r end) /\
+  match t_pc th with
+  | PGetUnlock y | PGot y => reg s (t_id th) = y
+  | PStoreUnlock r _ => reg s (t_id th) = Some r /\ t_seen th = None
+  | PChildNew | PStoreLock _ _ | PStoreBody _ _ => t_seen th = None
+  | _ => True
+  end /\
+  (t_kind th = KGo ->
+   match t_pc th with
+   | PChildNew => t_mine th = None
+   | PStoreLock r u | PStoreBody r u | PStoreUnlock r u => u = false /\ t_mine th = Some r /\ creator s r = x
+   | _ => exists r, t_mine th = Some r /\ t_seen th = Some r /\ creator s r = x
+   end).
+
+Definition hinv (s : state) : Prop := forall x, tj s x.
+
+Lemma tj_other : forall s s' x,
+  ginv s -> tj s x -> thr s' x = thr s x ->
+  (t_live (thr s x) = true -> reg s' (t_id (thr s x)) = reg s (t_id (thr s x))) ->
+  (forall r, r < nrec s -> creator s' r = creator s r) ->
+  tj s' x.
+Proof.
+  intros s s' x G T Ht Hr Hc. unfold tj in *. rewrite Ht. intros L.
+  specialize (T L). specialize (Hr L). rewrite Hr. destruct T as [T1 [T2 T3]].
+  split; [|split]; auto.
+  intros K. specialize (T3 K).
+  destruct (gi_thr _ G x) as [A B C D F P]. unfold pc_ok in P.
+  destruct (t_pc (thr s x)); auto.
+  all: try (destruct T3 as [r0 [M [S E]]]; exists r0; repeat split; auto; rewrite Hc; auto; apply D in M; destruct M; auto; fail).
+  all: destruct T3 as [U [M E]]; repeat split; auto; rewrite Hc; auto; apply D in M; destruct M; auto.
+Qed.
+
+Lemma init_hinv : forall id0, hinv (init id0).
+Proof.
+  intros id0 x. unfold tj. simpl. unfold upd. destruct (Nat.eqb x 0) eqn:E; simpl; [|discriminate].
+  intros _. split; [|split]; auto; try discriminate.
+  intros r H; inversion H; subst. rewrite Nat.eqb_refl. reflexivity.
+Qed.
+
+Lemma live_of_pc : forall s t, ginv s -> t_pc (thr s t) <> PExited -> t_live (thr s t) = true.
+Proof.
+  intros s t G H. destruct (t_live (thr s t)) eqn:L; auto.
+  apply (ti_dead _ _ (gi_thr _ G t)) in L. destruct L; contradiction.
+Qed.
+
+Lemma tj_other_set : forall s S t th' x,
+  ginv s -> tj s x -> x <> t -> thr S = thr s ->
+  (t_live (thr s x) = true -> reg S (t_id (thr s x)) = reg s (t_id (thr s x))) ->
+  (forall r, r < nrec s -> creator S r = creator s r) ->
+  tj (set_thr S t th') x.
+Proof.
+  intros. eapply tj_other; eauto.
+  simpl. rewrite upd_other; auto. rewrite H2. reflexivity.
+Qed.
+
+Lemma creator_alloc : forall s t id r, r < nrec s -> creator (alloc s t id) r = creator s r.
+Proof. intros. simpl. apply upd_other. lia. Qed.
+
+Ltac other_tac G Hh :=
+  apply tj_other_set with (s := _); auto; try (intros; apply creator_alloc; auto).
+
+Lemma step_hinv : forall s e s', ginv s -> ids_inj s -> hinv s -> step s e = Some s' -> hinv s'.
+Proof.
+  intros s e s' G Inj Hh H x. pose proof (Hh x) as Tx. destruct e; unfold step in H.
+  - (* ESpawnGo *)
+    destruct (_ && _) eqn:Hc in H; [|discriminate]. inversion H; subst; clear H.
+    destruct (Nat.eq_dec x (nthr s)) as [->|Nx].
+    + unfold tj. simpl. rewrite upd_same. simpl. intros _. split; [discriminate|]. auto.
+    + eapply tj_other; eauto. simpl. apply upd_other; auto.
+  - (* ESpawnForeign *)
+    destruct (Nat.eqb c (nthr s)); [|discriminate]. inversion H; subst; clear H.
+    destruct (Nat.eq_dec x (nthr s)) as [->|Nx].
+    + unfold tj. simpl. rewrite upd_same. simpl. intros _. split; [discriminate|]. split; auto. discriminate.
+    + eapply tj_other; eauto. simpl. apply upd_other; auto.
+  - (* EChildNew *)
+    destruct (t_pc (thr s c)) eqn:Hpc; try discriminate. inversion H; subst; clear H.
+    destruct (Nat.eq_dec x c) as [->|Nx]; [|other_tac G Hh].
+    unfold tj in *. simpl. rewrite upd_same. simpl. rewrite Hpc in Tx. intros L. destruct (Tx L) as [T1 [T2 T3]].
+    rewrite T2. split; [discriminate|]. split; auto. intros K. repeat split; auto. apply upd_same.
+  - (* ECall *)
+    destruct (_ && _) eqn:Hc in H; [|discriminate]. bool_hyps.
+    destruct (Nat.eqb (owner s ro) (t_id (thr s t))); inversion H; subst; clear H;
+      (destruct (Nat.eq_dec x t) as [->|Nx]; [|other_tac G Hh]);
+      unfold tj in *; simpl; rewrite upd_same; simpl; rewrite Heqp in Tx; auto.
+  - (* ELock *)
+    destruct (lockw s); [discriminate|].
+    destruct (t_pc (thr s t)) eqn:Hpc; try discriminate; inversion H; subst; clear H;
+      (destruct (Nat.eq_dec x t) as [->|Nx]; [|other_tac G Hh]);
+      unfold tj in *; simpl; rewrite upd_same; simpl; rewrite Hpc in Tx; auto.
+  - (* ESpin *)
+    destruct (lockw s); [|discriminate].
+    destruct (t_pc (thr s t)); try discriminate; inversion H; subst; auto.
